@@ -114,6 +114,14 @@ fn run_history(front: Front, reg: regions::Reg, start: u32, steps: &[Step], faul
             return None;
         }
     };
+    // nb front-end: half of the histories use a radio that completes TX asynchronously
+    // (TxRequest -> Txing, completion through a PHY event: the SendingData state)
+    let tx_async = front == Front::Nb && seed & 1 == 1;
+    dev.log.borrow_mut().tx_async = tx_async;
+    if tx_async {
+        col.event("nb_async_tx_histories");
+    }
+    let fname = if tx_async { "nb-async-tx" } else { front.name() };
     let mut fcnt_down: u32 = 0;
     let mut fault_iter = faults.iter().copied();
     let mut next_fault = fault_iter.next();
@@ -172,7 +180,7 @@ fn run_history(front: Front, reg: regions::Reg, start: u32, steps: &[Step], faul
             col.event("session_expired_reported");
         }
         if let Resp::Panic(m, l) = &resp {
-            col.violation(&format!("C06|panic|{}|{}", front.name(), short_loc(l)), "device panicked during the history", json!({"steps": format!("{:?}", steps), "faults": faults, "msg": m, "loc": l}));
+            col.violation(&format!("C06|panic|{}|{}", fname, short_loc(l)), "device panicked during the history", json!({"steps": format!("{:?}", steps), "faults": faults, "msg": m, "loc": l}));
             return None;
         }
         resps.push(format!("{}", resp.kind()));
@@ -200,17 +208,17 @@ fn run_history(front: Front, reg: regions::Reg, start: u32, steps: &[Step], faul
         Some(k) if *k < 4 => "early",
         Some(_) => "late",
     };
-    col.eval(&format!("{}|{}|{}|{}|{}|{}", front.name(), shape, fk, fpos, start_class(start), fault_mode));
+    col.eval(&format!("{}|{}|{}|{}|{}|{}", fname, shape, fk, fpos, start_class(start), fault_mode));
     if col.want_sample() && faults.len() == 1 {
-        col.sample(json!({"front": front.name(), "region": reg.name(), "start_fcnt_up": start, "steps": format!("{:?}", steps), "fault_at_radio_call": faults, "fault_kinds": fault_kinds, "responses": resps, "uplinks": sent.len()}));
+        col.sample(json!({"front": fname, "region": reg.name(), "start_fcnt_up": start, "steps": format!("{:?}", steps), "fault_at_radio_call": faults, "fault_kinds": fault_kinds, "responses": resps, "uplinks": sent.len()}));
     }
     let mut prev: Option<(u32, Vec<u8>)> = None;
-    let ctx = |extra: serde_json::Value| json!({"front": front.name(), "region": reg.name(), "start_fcnt_up": start, "steps": format!("{:?}", steps), "fault_at_radio_call": faults, "fault_kinds": fault_kinds, "responses": resps, "seed": seed, "extra": extra});
+    let ctx = |extra: serde_json::Value| json!({"front": fname, "region": reg.name(), "start_fcnt_up": start, "steps": format!("{:?}", steps), "fault_at_radio_call": faults, "fault_kinds": fault_kinds, "responses": resps, "seed": seed, "extra": extra});
     for (n, (bytes, step, after)) in sent.iter().enumerate() {
         let hint = prev.as_ref().map(|p| p.0).unwrap_or(start);
         let Some(u) = net.decode_uplink_any(bytes, hint) else {
             col.violation(
-                &format!("C06|undecodable-uplink|{}|start={}", front.name(), start_class(start)),
+                &format!("C06|undecodable-uplink|{}|start={}", fname, start_class(start)),
                 "an uplink does not verify under any full counter with the wire's low half (counter used for MIC is not the full counter)",
                 ctx(json!({"frame": hex(bytes), "step": step})),
             );
@@ -221,7 +229,7 @@ fn run_history(front: Front, reg: regions::Reg, start: u32, steps: &[Step], faul
         let want = [*step as u8, 0xC0, (*step * 7) as u8];
         if u.plain != want {
             col.violation(
-                &format!("C06|payload-not-encrypted-under-the-mic-counter|{}|start={}", front.name(), start_class(start)),
+                &format!("C06|payload-not-encrypted-under-the-mic-counter|{}|start={}", fname, start_class(start)),
                 "the MIC verifies under a full counter under which the FRMPayload does not decrypt to what was sent",
                 ctx(json!({"frame": hex(bytes), "counter": u.fcnt, "decrypted": hex(&u.plain), "sent": hex(&want)})),
             );
@@ -240,7 +248,7 @@ fn run_history(front: Front, reg: regions::Reg, start: u32, steps: &[Step], faul
                         &format!(
                             "C06|counter-not-increasing|{}|{}|after-fault={}|{}",
                             if u.fcnt == 0xFFFF_FFFF && *after != "none" { "at-max-after-radio-error".to_string() } else { format!("start={}", start_class(start)) },
-                            front.name(),
+                            fname,
                             after,
                             if same { "same-bytes" } else { "different-bytes" }
                         ),
